@@ -149,6 +149,14 @@ def g_long(n):
     cover("long")
 
 
+def g_threads(kind):
+    """the automatic pong stays whole on the wire next to a concurrent sender (C12's interleaving queries, shared)"""
+    from .c12 import w_order_mixed, w_order_send
+    if kind == "send":
+        return w_order_send(2, 2, 2)
+    return w_order_mixed(2)
+
+
 def obligations(tier):
     thorough = tier == "thorough"
     one = [dict(n=n, control_frame=cf) for n in range(0, 126) for cf in (False, True)]
@@ -183,5 +191,9 @@ def obligations(tier):
                    bounds="%d stream shapes with up to 3 pings before/between/inside fragmented messages, mixed with pongs and data; every "
                           "ping/pong payload symbolic with symbolic length in {0,1,2,3,5}; keys symbolic" % len(seen),
                    must_cover=["stream", "with-pings"], budget_s=1800, kernel=["WebSocket.recv_data_frame", "pong"]),
+        Obligation("G-threads", g_threads, [dict(kind="send"), dict(kind="mixed")],
+                   bounds="a sender thread (frame in 2 pieces) against another sender, and against a receiver thread answering a ping; ALL interleavings "
+                          "of the extracted lock/write events (C12's queries)", must_cover=["order-send", "order-mixed"], solver_timeout_ms=120000,
+                   kernel=["WebSocket.send_frame (send lock)", "recv_data_frame (ping branch)", "WebSocket.pong"]),
         Obligation("G-long", g_long, [dict(n=n) for n in (126, 127, 300)], bounds="pings of 126, 127, 300 bytes", must_cover=["long"]),
     ]
